@@ -32,6 +32,19 @@ type Plan struct {
 	// Enum cleared.
 	Enum *Enum `json:"enum,omitempty"`
 
+	// Same lists groups of writer indices whose (first) sinks must be
+	// byte-identical (C14); SameR groups of readers whose observable result
+	// (delivered bytes, error class) must be identical (C15 fragmentation).
+	Same  [][]int `json:"same,omitempty"`
+	SameR [][]int `json:"same_r,omitempty"`
+	// Equiv lists pairs of writer op ranges that must behave identically
+	// (Reset equivalence, C17).
+	Equiv []Equiv `json:"equiv,omitempty"`
+	// Twin asks the executor to also run the fault-free twin of this plan
+	// (all injected faults removed) and to check that what reached each
+	// writer sink before its first fault is a byte prefix of the twin's sink.
+	Twin bool `json:"twin,omitempty"`
+
 	// Expect is the violation signature a replay file must reproduce.
 	Expect string `json:"expect,omitempty"`
 	// Race records that the violation needs the race-detector build.
@@ -59,6 +72,13 @@ type Enum struct {
 	// Max number of points beyond which the stated sampling rule applies.
 	Full int    `json:"full,omitempty"`
 	Seed uint64 `json:"seed,omitempty"`
+}
+
+// Equiv: ops [FromA..] of writer A on sink SinkA behave like ops [FromB..] of
+// writer B on sink SinkB.
+type Equiv struct {
+	A, FromA, SinkA int
+	B, FromB, SinkB int
 }
 
 // WOpts are Writer (and CompressingReader) options.
